@@ -29,7 +29,9 @@ seeded("c18-light-height", ["C18"], [(LM, "return max(child.height for child in 
 seeded("c18-light-siblings-eq", ["C18"], [(LM, "if node is not self)", "if node != self)")], ["M4"])
 seeded("c18-light-extra-member", ["C18"], [(LM, "    @property\n    def is_root(self):", "    def extra(self):\n        return 1\n\n    @property\n    def is_root(self):")], ["M1"])
 seeded("c18-slots-missing", ["C18"], [(LM, '__slots__ = ["__parent", "__children"]', '__slots__ = ["__parent"]')], ["M6"])
-seeded("c18-typecheck-one-mixin", ["C18"], [(NM, "if value is not None and not isinstance(value, (NodeMixin, LightNodeMixin)):", "if value is not None and not isinstance(value, NodeMixin):")], ["M4"])
+# a node-type check that names only the mixin's own class is as dead for a tree built from that mixin as one naming both
+# (C18 compares a NodeMixin history with the same history on LightNodeMixin nodes, not mixed trees): benign since round 13
+benign("c18-typecheck-one-mixin", ["C18"], [(NM, "if value is not None and not isinstance(value, (NodeMixin, LightNodeMixin)):", "if value is not None and not isinstance(value, NodeMixin):")])
 seeded("c18-light-separator", ["C18"], [(LM, 'separator = "/"', 'separator = "|"')], ["M5"])
 benign("c18-both-rename-local", ["C18"], both("parentchildren", "pchildren_", 0))
 benign("c18-light-rename-local", ["C18"], [(LM, "parentchildren", "plist", 0)])
